@@ -261,3 +261,195 @@ Example C13_heap_refusal_nonvacuous :
   | _, _ => False
   end.
 Proof. vm_compute. repeat split. Qed.
+
+(* ================= audit follow-up: call indexes, exact partial effects, the other callbacks ================= *)
+From NT Require Import FaultIndex FaultSharp.
+From NT Require Traverse TraverseStop DictList FaultReadOnly.
+
+(* ---- "the k-th invocation raises", k = position in the call order, whatever the argument ----
+   [step_k w o k] = the operation in which invocation k (0-based) of its callback raises:
+   calc_data_id in add / shortcuts / set_data / rename / del / from_dict (also "the second call on
+   the SAME object", which no argument-keyed table expresses), the sort key, the filter predicate;
+   it is a [step] of a poisoned operation, so everything proved for all tables holds for all k *)
+Theorem C13_step_k_wf : forall w o k, WFw w -> WFw (snd (step_k w o k)).
+Proof. exact step_k_WFw. Qed.
+Print Assumptions C13_step_k_wf.
+
+Theorem C13_step_k_calc_unchanged : forall w o k e,
+  multi_source o = false -> partial_on_crash o = false -> fst (step_k w o k) = Err e ->
+  sx_world (snd (step_k w o k)) = sx_world w.
+Proof. intros w o k e M P E. apply trees_sx_world. exact (step_k_calc_unchanged w o k e M P E). Qed.
+Print Assumptions C13_step_k_calc_unchanged.
+
+Theorem C13_sort_k_effect : forall w ti p kt rv dp k t,
+  get_tree w ti = Some t ->
+  exists t', get_tree (snd (step_k w (OSort ti p kt rv dp) k)) ti = Some t'
+    /\ reg t' = reg t /\ idx t' = idx t /\ Permutation (rows 0 (forest_of t)) (rows 0 (forest_of t')).
+Proof. exact sort_k_effect. Qed.
+Print Assumptions C13_sort_k_effect.
+
+Theorem C13_filter_k_effect : forall w ti n vd k t,
+  get_tree w ti = Some t ->
+  exists t', get_tree (snd (step_k w (OFilter ti n vd) k)) ti = Some t'
+    /\ incl (rows 0 (forest_of t')) (rows 0 (forest_of t)).
+Proof. exact filter_k_effect. Qed.
+Print Assumptions C13_filter_k_effect.
+
+(* the poisoned object really makes the callback raise; the poisoned node really is answered by raise *)
+Theorem C13_poison_raises : forall tbl d n k vd,
+  calc_id (Some tbl) (poison_dat tbl d) = None /\ key_of ((n, None) :: k) n = None /\ verdict_of ((n, VRaise) :: vd) n = VRaise.
+Proof. intros. split; [apply calc_poisoned|split; [apply key_of_poisoned|apply verdict_of_poisoned]]. Qed.
+Print Assumptions C13_poison_raises.
+
+(* non-vacuity: object 9 is passed to calc_data_id twice by one from_dict (invocations 0 and 2);
+   invocation 2 raising = "second call on the same object": ECrash, nothing left; invocation 3 does not exist: Ok *)
+Definition c13_wcal : world :=
+  run [ONewTree false (Some [(1%Z, Some (DInt 1)); (7%Z, Some (DInt 7)); (9%Z, Some (DInt 9))]); OAdd 0 0 (c13_dd 1) None None BNone] empty_world.
+Definition c13_fd : op := OFromDict 0 1 [DI (c13_dd 9) None []; DI (c13_dd 7) None [DI (c13_dd 9) None []]].
+Example C13_call_index_nonvacuous :
+  map (fun k => (fst (step_k c13_wcal c13_fd k), sx_eqb (sx_world (snd (step_k c13_wcal c13_fd k))) (sx_world c13_wcal))) [0; 1; 2; 3]
+  = [(Err ECrash, true); (Err ECrash, true); (Err ECrash, true); (Ok [], false)]
+  /\ (* sort: invocations in call order 1 4 | 2 3; a fault at 0/1 changes nothing, at 2/3 the first level is sorted *)
+  map (fun k => (fst (step_k c13_w (OSort 0 0 [(1, Some [2%Z]); (4, Some [1%Z]); (2, Some [5%Z]); (3, Some [1%Z])] false true) k),
+                 sx_eqb (sx_world (snd (step_k c13_w (OSort 0 0 [(1, Some [2%Z]); (4, Some [1%Z]); (2, Some [5%Z]); (3, Some [1%Z])] false true) k))) (sx_world c13_w)))
+      [0; 1; 2; 3; 4]
+  = [(Err ECrash, true); (Err ECrash, true); (Err ECrash, false); (Err ECrash, false); (Ok [], false)]
+  /\ (* filter: invocations 1 2 3 4; node 2 is removed when the scan of node 1 ends, i.e. before invocation 3 *)
+  map (fun k => (fst (step_k c13_w (OFilter 0 0 [(1, VTrue); (2, VSkip); (3, VTrue); (4, VFalse)]) k),
+                 sx_eqb (sx_world (snd (step_k c13_w (OFilter 0 0 [(1, VTrue); (2, VSkip); (3, VTrue); (4, VFalse)]) k))) (sx_world c13_w)))
+      [0; 1; 2; 3; 4]
+  = [(Err ECrash, true); (Err ECrash, true); (Err ECrash, true); (Err ECrash, false); (Ok [], false)].
+Proof. vm_compute. repeat split. Qed.
+
+(* ---- exactly what remains after a fault ---- *)
+(* sort: every child list of the result is the original list or its sorted form AS A WHOLE (all keys of a
+   level are computed before anything moves), recursively through the sorted order; never a half-sorted list *)
+Theorem C13_sort_fault_exact : forall w ti p kt rv dp t pq ch,
+  get_tree w ti = Some t -> parent_path p (forest_of t) = Some pq -> get_ch pq (forest_of t) = Some ch ->
+  exists ch', LSRel kt rv ch ch'
+    /\ snd (op_sort w ti p kt rv dp) = put_tree w ti (set_forest t (upd_ch pq (fun _ => ch') (forest_of t))).
+Proof. exact sort_fault_exact. Qed.
+Print Assumptions C13_sort_fault_exact.
+
+(* a level with a raising key is left as it is; after the first failure nothing further is touched *)
+Theorem C13_sort_fault_stops : forall k rev fuel id i ch t,
+  (ch <> [] -> keys_ok k ch = false -> sort_deep (S fuel) k rev (T id i ch) false = (T id i ch, true))
+  /\ sort_deep fuel k rev t true = (t, true).
+Proof. intros. split; [apply sort_deep_level_fault|apply sort_deep_failed]. Qed.
+Print Assumptions C13_sort_fault_stops.
+
+(* filter: the state is the one after executing, in order, exactly the removals the scan had emitted when the
+   predicate raised; each removal takes one whole branch / all children of one node ([accounts]); the rows
+   before are the removed rows plus the rows after - nothing lost, duplicated or moved; the tree is well-formed *)
+Theorem C13_filter_fault_exact : forall w ti n vd t ch,
+  WFw w -> get_tree w ti = Some t -> children_of n (forest_of t) = Some ch ->
+  let '(_, acts, _, failed) := fvisit vd (T 0 dummy_info ch) false in
+  let t' := fold_left apply_fact acts t in
+  step w (OFilter ti n vd) = ((if failed then Err ECrash else Ok []), put_tree w ti t')
+  /\ WF t'
+  /\ exists R, accounts t acts R /\ Permutation (rows 0 (forest_of t)) (R ++ rows 0 (forest_of t')).
+Proof. exact filter_fault_exact. Qed.
+Print Assumptions C13_filter_fault_exact.
+
+Example C13_fault_exact_nonvacuous :
+  (* the raising predicate at node 4: exactly one removal had been made, the branch of node 2 *)
+  (let '(_, acts, _, failed) := fvisit [(1, VTrue); (2, VSkip); (3, VTrue); (4, VRaise)] (T 0 dummy_info (match get_tree c13_w 0 with Some t => forest_of t | None => [] end)) false in (acts, failed))
+  = ([FBranch 2], true)
+  /\ (* the raising key at node 2: the top level is sorted (4 before 1), the children of 1 are as they were *)
+  match get_tree (snd (step c13_w c13_sort)) 0 with
+  | Some t => (map rid (forest_of t), map (fun x => map rid (rch x)) (forest_of t))
+  | None => ([], [])
+  end = ([4; 1], [[]; [2; 3]]).
+Proof. vm_compute. split; reflexivity. Qed.
+
+(* ---- the callbacks that are not callbacks of the mutation machine ---- *)
+(* visitor (C06's model with call-index callbacks): an exception at invocation k ends the traversal - exactly
+   the first k+1 nodes of the order were called - and is re-raised.  (visit is a pure function in the model:
+   that the tree is unchanged is checked on the implementation by the snapshot oracle.) *)
+Theorem C13_visitor_fault : forall (cb : Traverse.cbT) s m a k e l,
+  TraverseStop.at_call cb k (Traverse.Err e) -> TraverseVisit.visit_supported m = true -> Traverse.iterator s m a = Some l ->
+  Traverse.visit cb s m a
+  = if Nat.ltb k (length l) then (firstn (S k) (map rid l), Traverse.VRaise e) else (map rid l, Traverse.VReturn None).
+Proof. exact FaultReadOnly.visitor_fault_at_call. Qed.
+Print Assumptions C13_visitor_fault.
+
+(* deserialisation mapper (C14's model of Tree.from_dict / Node.from_dict): a tree is returned only if the
+   mapper raised on NO item of the input, at any depth - a raising invocation builds no tree *)
+Theorem C13_mapper_fault_no_tree : forall dd calc next obj f,
+  DictList.from_dict dd calc next obj = inl f ->
+  FaultReadOnly.pts_all (FaultReadOnly.mapped dd) (map DictList.parse obj).
+Proof. exact FaultReadOnly.from_dict_all_mapped. Qed.
+Print Assumptions C13_mapper_fault_no_tree.
+
+Theorem C13_node_mapper_fault_no_tree : forall dd calc next f target obj g,
+  DictList.node_from_dict dd calc next f target obj = inl g ->
+  FaultReadOnly.pts_all (FaultReadOnly.mapped dd) (map DictList.parse obj).
+Proof. exact FaultReadOnly.node_from_dict_all_mapped. Qed.
+Print Assumptions C13_node_mapper_fault_no_tree.
+
+(* Node.from_dict(items, mapper) on an ATTACHED node (mutating), machine level: [MI None ..] = the mapper raises
+   on that item; the items before it (pre-order) are added, then the rollback (fix D48) removes them *)
+Theorem C13_from_dict_mapper_fault : forall w ti p items,
+  (snd (FaultReadOnly.trunc_items items) = true -> exists e, fst (FaultReadOnly.op_from_dict_m w ti p items) = Err e)
+  /\ (forall e, fst (FaultReadOnly.op_from_dict_m w ti p items) = Err e ->
+        sx_world (snd (FaultReadOnly.op_from_dict_m w ti p items)) = sx_world w)
+  /\ (WFw w -> WFw (snd (FaultReadOnly.op_from_dict_m w ti p items))).
+Proof.
+  intros w ti p items. split; [apply FaultReadOnly.from_dict_m_raises|]. split; [|apply FaultReadOnly.from_dict_m_WFw].
+  intros e E. apply trees_sx_world. exact (FaultReadOnly.from_dict_m_unchanged w ti p items e E).
+Qed.
+Print Assumptions C13_from_dict_mapper_fault.
+
+Definition c13_inf (s : text) : info := I 0 0 0 true s (DInt 0) None [].
+Definition c13_dd_mapper : DictList.dmapper :=
+  DictList.dd_raw (fun v => match v with DictList.JStr s => inl (c13_inf s) | _ => inr DictList.E_CRASH end).
+Definition c13_cb : Traverse.cbT := fun calls _ => if Nat.eqb (length calls) 1 then Traverse.RaiseOther 8 else Traverse.RetNone.
+Example C13_other_callbacks_nonvacuous :
+  (* mapper raising on the third of three items, two levels deep, on node 3 of c13_w which has the sibling 2 *)
+  (let r := FaultReadOnly.op_from_dict_m c13_w 0 3
+              [FaultReadOnly.MI (Some (c13_dd 7)) None [FaultReadOnly.MI (Some (c13_dd 8)) None []; FaultReadOnly.MI None None []];
+               FaultReadOnly.MI (Some (c13_dd 9)) None []] in
+   (fst r, sx_eqb (sx_world (snd r)) (sx_world c13_w), next (snd r) - next c13_w)) = (Err ECrash, true, 2)
+  /\ DictList.from_dict c13_dd_mapper DictList.default_did 0
+       [DictList.JDict [(DictList.k_data, DictList.JStr [97%Z])]; DictList.JDict [(DictList.k_data, DictList.JInt 5)]] = inr DictList.E_CRASH
+  /\ Traverse.tree_visit c13_cb [T 1 (c13_inf []) [T 2 (c13_inf []) []; T 3 (c13_inf []) []]] Traverse.PRE = ([1; 2], Traverse.VRaise 8).
+Proof. vm_compute. repeat split. Qed.
+
+(* ---- ECrash of a sort is always a raising key: with a key for every node the deep sort does not fail
+   (the fuel of the model's recursion is never the reason) ---- *)
+Theorem C13_sort_crash_is_a_raising_key : forall w ti p k rev deep,
+  fst (op_sort w ti p k rev deep) = Err ECrash -> ~ total_keys k.
+Proof. exact sort_crash_is_a_raising_key. Qed.
+Print Assumptions C13_sort_crash_is_a_raising_key.
+
+(* ---- the function the correspondence evaluates is [step_chk] / [run_chk] (CaseMut.v: [step] guarded by the
+   liveness of the references, else (Err EModel, w)): the refusal theorem for exactly that function ---- *)
+From NT Require CaseMut CaseWF.
+Theorem C13_refusal_chk : forall w o e,
+  WFw w -> fst (CaseMut.step_chk w o) = Err e -> library_error e = true ->
+  sx_world (snd (CaseMut.step_chk w o)) = sx_world w.
+Proof.
+  intros w o e H. unfold CaseMut.step_chk. destruct (CaseMut.op_live w o); [apply C13_refusal; exact H|reflexivity].
+Qed.
+Print Assumptions C13_refusal_chk.
+
+Theorem C13_refusal_chk_reachable : forall ops o e,
+  fst (CaseMut.step_chk (CaseMut.run_chk ops empty_world) o) = Err e -> library_error e = true ->
+  sx_world (snd (CaseMut.step_chk (CaseMut.run_chk ops empty_world) o)) = sx_world (CaseMut.run_chk ops empty_world).
+Proof. intros ops o e. apply C13_refusal_chk. apply CaseWF.WFw_run_chk, WFw_empty. Qed.
+Print Assumptions C13_refusal_chk_reachable.
+
+(* ---- every operation and every error class (also TypeError / dead references inside add(tree) and
+   copy_to(add_self=False), which [C13_error_unchanged] left out): in a well-formed world the only exits
+   with a partial effect are a raising sort key and a raising filter predicate ---- *)
+From NT Require Import RefusalMultiAll.
+Theorem C13_error_unchanged_all : forall w o e,
+  WFw w -> partial_on_crash o = false -> fst (step w o) = Err e ->
+  sx_world (snd (step w o)) = sx_world w.
+Proof. intros w o e H P E. apply trees_sx_world. exact (error_all w o e H P E). Qed.
+Print Assumptions C13_error_unchanged_all.
+
+Example C13_error_all_nonvacuous :
+  (* a typed source copied into the plain tree: TypeError out of the loop of add(tree), nothing changed *)
+  fst (step c13_w (OAddTree 0 1 1 BNone None)) = Err EType /\ partial_on_crash (OAddTree 0 1 1 BNone None) = false.
+Proof. vm_compute. split; reflexivity. Qed.
